@@ -326,5 +326,28 @@ class model_py_compile:
         return None
 
 
-MODEL_GLOBALS = {'os': model_os, 'tempfile': model_tempfile, 'py_compile': model_py_compile,
+def model_open(path, mode='r', *a, **kw):
+    """builtin open() on the model: writing creates or truncates the named file"""
+    proc = CURRENT[0]
+    fs = proc.fs
+    fs.events += 1
+    if 'w' in mode or 'a' in mode or 'x' in mode:
+        if proc.dead:
+            return ModelFile(fs, -1, proc)
+        if path in fs.names:
+            if 'x' in mode:
+                raise FileExistsError(path)
+            ino = fs.names[path]
+            if 'w' in mode:
+                fs.inodes[ino] = b''
+        else:
+            fs.counter += 1
+            ino = fs.counter
+            fs.inodes[ino] = b''
+            fs.names[path] = ino
+        return ModelFile(fs, ino, proc)
+    raise NotImplementedError('model open() for reading')
+
+
+MODEL_GLOBALS = {'open': model_open, 'os': model_os, 'tempfile': model_tempfile, 'py_compile': model_py_compile,
                  'acquire_lock': lambda: None, 'release_lock': lambda: None}
